@@ -326,6 +326,7 @@ func ruleGCCountdown(c *Ctx) {
 		c.undecided("(*server.wsConn).tryDelete", "anchor", "-", "not found")
 		return
 	}
+	gcHold, gcSent := gcRecordFields(p, fn)
 	// visitor closures passed to traverse
 	trav := p.Method("server.Subscription.traverse")
 	var visitors []*ssa.Function
@@ -379,7 +380,7 @@ func ruleGCCountdown(c *Ctx) {
 					continue
 				}
 				f, _ := fieldLoad(x)
-				if f == nil || !(strings.EqualFold(f.Name(), "indirect") || strings.EqualFold(f.Name(), "indirectsent")) {
+				if f == nil || !(strings.EqualFold(f.Name(), "indirect") || strings.EqualFold(f.Name(), "indirectsent") || gcHold[f] || gcSent[f] || f == p.Field("server.Subscription.indirect") || f == p.Field("server.Subscription.indirectsent")) {
 					continue
 				}
 				c.inst(1)
@@ -409,11 +410,20 @@ func ruleGCCountdown(c *Ctx) {
 			return false
 		}
 		sf := p.Field("server.Subscription." + name)
+		if f == sf {
+			return false
+		}
+		if name == "indirect" && len(gcHold) > 0 {
+			return gcHold[f]
+		}
+		if name == "indirectsent" && len(gcSent) > 0 {
+			return gcSent[f]
+		}
 		want := name
 		if sf != nil {
 			want = sf.Name()
 		}
-		return strings.EqualFold(f.Name(), want) && f != sf
+		return strings.EqualFold(f.Name(), want)
 	}
 	minus := func(v ssa.Value) (string, bool) {
 		b, ok := v.(*ssa.BinOp)
@@ -466,6 +476,44 @@ func ruleGCCountdown(c *Ctx) {
 	}
 	c.check(bad == "", fnName(v), "indirect and indirectsent are discounted together on every path of the count-down", p.Pos(v.Pos()), fmt.Sprintf("%d paths", len(tr.Paths)), bad)
 	_ = strings.Join
+}
+
+// gcRecordFields finds the collector's own bookkeeping fields by data flow: the
+// fields (of any struct but Subscription) that tryDelete and its helpers fill
+// from Subscription.indirect and Subscription.indirectsent.
+func gcRecordFields(p *Prog, fn *ssa.Function) (holders, sent map[*types.Var]bool) {
+	holders, sent = map[*types.Var]bool{}, map[*types.Var]bool{}
+	sfInd := p.Field("server.Subscription.indirect")
+	sfSent := p.Field("server.Subscription.indirectsent")
+	for _, g := range p.withHelpers(fn) {
+		for _, in := range instrsOf(g) {
+			st, ok := in.(*ssa.Store)
+			if !ok {
+				continue
+			}
+			fa, ok := st.Addr.(*ssa.FieldAddr)
+			if !ok {
+				continue
+			}
+			tf := fieldOfAddr(fa)
+			if tf == nil || tf == sfInd || tf == sfSent {
+				continue
+			}
+			v := st.Val
+			if b, isB := v.(*ssa.BinOp); isB && b.Op == token.SUB {
+				v = b.X
+			}
+			if f, _ := fieldLoad(v); f != nil {
+				if f == sfInd && sfInd != nil {
+					holders[tf] = true
+				}
+				if f == sfSent && sfSent != nil {
+					sent[tf] = true
+				}
+			}
+		}
+	}
+	return
 }
 
 // withHelpers returns fn, its closures and, transitively, the unexported
@@ -523,8 +571,17 @@ func ruleGCMark(c *Ctx) {
 	if sfInd != nil {
 		indName = sfInd.Name()
 	}
+	// the collector's own holder count: the field of its bookkeeping record that is filled from the
+	// subscription's indirect count (by name as a fallback)
+	holderFields, _ := gcRecordFields(p, fn)
 	isHolders := func(f *types.Var) bool {
-		return f != nil && f != sfInd && f.Pkg() != nil && f.Pkg().Name() == "server" && strings.EqualFold(f.Name(), indName)
+		if f == nil || f == sfInd {
+			return false
+		}
+		if len(holderFields) > 0 {
+			return holderFields[f]
+		}
+		return f.Pkg() != nil && f.Pkg().Name() == "server" && strings.EqualFold(f.Name(), indName)
 	}
 	var visitors []*ssa.Function
 	for _, g := range p.withHelpers(fn) {
